@@ -628,3 +628,97 @@ def ctable_write_problems(root, c_table, accepted_escapes=ACCEPTED_ESCAPES):
         if extra:
             problems.append("C entry point %s WRITES its positional argument(s) %s; the C entry-point table allows only %s" % (key, extra, list(exp)))
     return problems, found
+
+
+# ------------------------------------------------------------------------------------------------------
+# records.cpp: the WRITE path of the record-file writer must not store through the caller's data pointer
+#
+# Records::Write(obj) sets  mData = PyArray_DATA(obj)  and walks the rows through mData in the Write* methods.  The scan
+# (syntactic, fail closed) takes the call-graph closure of Records::Write inside records.cpp and, in every function of it,
+# treats as TAINTED: the member mData, every pointer parameter (char* / void* / T*), and every local assigned from a tainted
+# name (to a fixpoint).  Problems: a store through a tainted pointer (`p[..] op=`, `*p op=`, `*(T*)p op=`, `(*p)++`), a
+# tainted pointer handed to a writing libc function (memcpy/memset/fread/sscanf/strcpy/sprintf... as destination) or to any
+# function that is neither in the closure nor in READ_ONLY_IO.  Pointer arithmetic (`mData += elsize`) is not a store.
+# ------------------------------------------------------------------------------------------------------
+RECORDS_SRC = "esutil/recfile/records.cpp"
+RECORDS_ROOTS = ("Write",)
+READ_ONLY_IO = {"fwrite", "fputc", "fputs", "fprintf", "printf", "putc", "strlen", "strcmp", "strncmp", "memcmp", "debugout", "fflush",
+                "c_str", "size", "str", "runtime_error", "ensure_writable", "fseek", "ftell", "feof", "ferror"}
+
+
+def records_write_scan(root):
+    """-> (closure: sorted function names, problems)"""
+    p = os.path.join(root, RECORDS_SRC)
+    if not os.path.exists(p):
+        return [], ["%s not found" % RECORDS_SRC]
+    txt = _strip_c(open(p).read())
+    funcs = {}
+    for name, params, body in _functions(txt):
+        if name.startswith("Records::"):
+            funcs.setdefault(name.split("::", 1)[1], []).append((params, body))
+    problems = []
+    for r in RECORDS_ROOTS:
+        if r not in funcs:
+            problems.append("Records::%s not found in %s" % (r, RECORDS_SRC))
+    # call-graph closure
+    closure, todo = set(), [r for r in RECORDS_ROOTS if r in funcs]
+    while todo:
+        f = todo.pop()
+        if f in closure:
+            continue
+        closure.add(f)
+        for params, body in funcs[f]:
+            for m in re.finditer(r"(?<![\w.>])(?:this\s*->\s*)?([A-Za-z_]\w*)\s*\(", body):
+                if m.group(1) in funcs and m.group(1) not in closure:
+                    todo.append(m.group(1))
+    if "mData" not in txt:
+        problems.append("member mData not found in %s (the scan no longer knows how the input buffer is reached)" % RECORDS_SRC)
+    for f in sorted(closure):
+        for params, body in funcs[f]:
+            tainted = {"mData"}
+            for prm in [x.strip() for x in params.split(",") if x.strip()]:
+                m = re.match(r"(?:const\s+)?[\w:]+(?:\s+[\w:]+)*\s*\*+\s*(\w+)$", prm)
+                if m and not re.match(r"(?:const\s+)?(?:struct\s+)?Py\w+\b", prm):       # PyObject* / PyArray_Descr* are not data buffers
+                    tainted.add(m.group(1))
+            # PyArray_DATA(...) / GETPTR of anything is the input buffer too
+            changed = True
+            while changed:
+                changed = False
+                for m in re.finditer(r"(?<![\w.>])(\w+)\s*=(?!=)\s*([^;]*);", body):
+                    lhs, rhs = m.group(1), m.group(2)
+                    if lhs in tainted:
+                        continue
+                    rhs_names = set(re.findall(r"[A-Za-z_]\w*", rhs))
+                    deref = re.match(r"\s*\*", rhs) or re.search(r"\[[^\]]*\]\s*$", rhs.strip())
+                    if (rhs_names & tainted or re.search(r"PyArray_(DATA|GETPTR[1-4]|BYTES)\b", rhs)) and not deref:
+                        # only pointer-valued copies: `char* buffer = mData`, `buffer = mData + k`, `(T*) buffer`
+                        if re.search(r"\*\s*%s\s*=(?!=)" % lhs, body) or re.search(r"\*\s*%s\s*;" % lhs, body) or re.search(r"\*\s*%s\s*[=,;)]" % lhs, params + body):
+                            tainted.add(lhs)
+                            changed = True
+            for t in sorted(tainted):
+                pats = [r"(?<![\w.>])%s\s*\[[^\]]*\]\s*%s" % (t, _ASSIGN_OP),                         # p[i] = ...
+                        r"\*\s*(?:\(\s*[\w\s:]+\*\s*\)\s*)?%s\b\s*%s" % (t, _ASSIGN_OP),              # *p = , *(T*)p =
+                        r"\(\s*\*\s*(?:\(\s*[\w\s:]+\*\s*\)\s*)?%s\s*\)\s*%s" % (t, _ASSIGN_OP),      # (*p)++ , (*(T*)p) =
+                        r"\(\s*\(\s*[\w\s:]+\*\s*\)\s*%s\s*\)\s*\[[^\]]*\]\s*%s" % (t, _ASSIGN_OP),   # ((T*)p)[i] =
+                        r"(?:\+\+|--)\s*\*\s*%s\b" % t, r"(?:\+\+|--)\s*%s\s*\[" % t]
+                for k, pat in enumerate(pats):
+                    for m in re.finditer(pat, body):
+                        if k == 1:
+                            pre = body[max(0, m.start() - 30):m.start()]
+                            # `char* buffer = mData;` / `T *p = ...` is a declaration, not a store through p
+                            if re.search(r"[\w>]\s*$", pre) and not re.search(r"[;{}(,=]\s*$", pre):
+                                continue
+                        problems.append("Records::%s stores through %s (the caller's data buffer): `%s`" % (f, t, " ".join(m.group(0).split())))
+                for m in re.finditer(r"(?<![\w.>])([A-Za-z_]\w*)\s*\(([^;{}]*)\)", body):
+                    callee, argtxt = m.group(1), m.group(2)
+                    if not re.search(r"(?<![\w.>\[*])%s\b(?!\s*[\[(])" % t, re.sub(r"\*\s*(\(\s*[\w\s:]+\*\s*\)\s*)?", "*", argtxt)):
+                        continue
+                    if callee in WRITERS:
+                        first = argtxt.split(",")[0]
+                        if re.search(r"\b%s\b" % t, first) or callee in ("sscanf", "fscanf"):
+                            problems.append("Records::%s passes %s (the caller's data buffer) to %s as destination" % (f, t, callee))
+                    elif callee in closure or callee in READ_ONLY_IO or callee in ("if", "while", "for", "switch", "return", "sizeof"):
+                        continue
+                    else:
+                        problems.append("Records::%s hands %s (the caller's data buffer) to %s(...), which the scan does not follow" % (f, t, callee))
+    return sorted(closure), sorted(set(problems))
